@@ -22,7 +22,9 @@ CallableKinds == {"function", "method", "static", "classmethod", "ctor"}
 \* "starmethod": an instance method written without a named receiver (its first parameter is the star-args parameter): Python passes
 \* the instance as args[0], the parameter list has no implicit receiver to remove
 \* "newmethod": def __new__(cls, ...) - Python passes the class implicitly although the method carries no decorator
-CkCode(c) == CASE c = "function" -> 0 [] c = "method" -> 1 [] c = "static" -> 2 [] c = "classmethod" -> 3 [] c = "ctor" -> 4 [] c = "starmethod" -> 5 [] c = "starctor" -> 6 [] c = "newmethod" -> 7
+\* "docfunction": a function whose NumPy-style docstring gives every parameter a type (and says nothing about defaults); it is analysed with
+\* the docstring as preferred type source - which decides types only: defaults and optionality are those of the Python parameter list
+CkCode(c) == CASE c = "docfunction" -> 8 [] c = "function" -> 0 [] c = "method" -> 1 [] c = "static" -> 2 [] c = "classmethod" -> 3 [] c = "ctor" -> 4 [] c = "starmethod" -> 5 [] c = "starctor" -> 6 [] c = "newmethod" -> 7
 HasReceiver(c) == c \in {"method", "classmethod", "ctor", "newmethod"}
 
 (* Literal defaults: Python source text, literal type, canonical value (Python value semantics, B.7). *)
@@ -81,6 +83,8 @@ Universe ==
   UNION { { Scenario(n, sd, ck, ann, FALSE) : sd \in { x \in Shapes(n) : x[1][1] = "vararg" }, ann \in BOOLEAN, ck \in {"starmethod", "starctor"} } : n \in 1..MaxP }   \* starctor: a constructor without a named receiver
   \cup
   UNION { { Scenario(n, sd, "newmethod", ann, FALSE) : sd \in Shapes(n), ann \in BOOLEAN } : n \in 0..2 }
+  \cup
+  UNION { { Scenario(n, sd, "docfunction", ann, FALSE) : sd \in Shapes(n), ann \in BOOLEAN } : n \in 1..2 }
   \cup
   UNION { { Scenario(n, sd, ck, TRUE, TRUE) :
               sd \in { x \in Shapes(n) : x[1][1] \in {"posonly", "pos"} }, ck \in {"function", "static"} } : n \in 1..MaxP }
